@@ -30,7 +30,7 @@ func init() {
 		Race:      true,
 		RaceFiles: []string{"transport.go", "csession.go", "channel.go"},
 		Shards:    shards(8, 16),
-		Timeout:   timeouts(8*time.Minute, 60*time.Minute),
+		Timeout:   timeouts(12*time.Minute, 90*time.Minute),
 		MinEvals:  50,
 		Required:  []string{"rounds", "replies_out_of_order", "abandoned_then_answered_late", "error_replies", "wrap_runs", "tag_wraps_observed", "pinned_tags_skipped_checks", "calls_returned_own_uid", "abandoned_during_write", "pin_bursts_below_notag", "dead_context_calls_among_pending", "depletion_runs", "depleted_call_refused", "idle_wrap_runs"},
 		Run:       runC05,
